@@ -9,7 +9,6 @@ package main
 
 import (
 	"bufio"
-	"strconv"
 	"encoding/json"
 	"flag"
 	"fmt"
@@ -18,6 +17,7 @@ import (
 	"os"
 	"os/exec"
 	"sort"
+	"strconv"
 	"strings"
 	"time"
 )
@@ -54,7 +54,7 @@ type Result struct {
 	Exhaustive   bool           `json:"exhaustive"`
 	Notes        []string       `json:"notes"`
 	InternalErrs []string       `json:"internal_errors"`
-	ModelArms    map[string]int `json:"model_arms"` // arms of the Lean model exercised by this run's EVAL requests (counted by the driver)
+	ModelArms    map[string]int `json:"model_arms"`      // arms of the Lean model exercised by this run's EVAL requests (counted by the driver)
 	GenStale     []string       `json:"generator_stale"` // generated "sentences" the model does not read as generated: an internal error unless the grammar file was edited
 	WallS        float64        `json:"wall_s"`
 }
